@@ -99,4 +99,39 @@ def transmission (ctrl : Control) (level size : Nat) (payload : List Nat) : List
     command (cd ++ ",m=" ++ (if m then "1" else "0")) c
       ++ (rest.flatMap fun (m, c) => command (if m then "m=1" else "m=0") c)
 
+
+/-! ## LINES strips (`raw_image.read(bytes_per_line)` once per line) -/
+
+/-- `n` successive reads of `k` bytes from the raw image -/
+def strips {α} (k : Nat) : Nat → List α → List (List α)
+  | 0, _ => []
+  | n + 1, raw => raw.take k :: strips k n (raw.drop k)
+
+/-- `cell_height = height // r_height`, `bytes_per_line = width * cell_height * (format // 8)` -/
+def bytesPerLine (width height rh fmt : Nat) : Nat := width * (height / rh) * (fmt / 8)
+
+/-! ## WHOLE minimal render size (`GraphicsImage._get_minimal_render_size`, `adjust=False`) -/
+def minimalRenderSize (render orig : Nat × Nat) : Nat × Nat :=
+  if render.1 * render.2 < orig.1 * orig.2 then render else orig
+
+/-! ## iterm2: the read-from-file gate of `ITerm2Image._render_image` as decision logic -/
+structure FileGate where
+  readFromFile : Bool      -- `self.read_from_file`
+  animated : Bool          -- `self._is_animated`
+  readable : Bool          -- `file_is_readable`
+  whole : Bool             -- `render_method == WHOLE`
+  origPixels : Nat         -- `mul(*self._original_size)`
+  renderPixels : Nat       -- `mul(*self._get_render_size())`
+  modeNoAlpha : Bool       -- `img.mode in {"1", "L", "RGB", "HSV", "CMYK"}`
+  alphaIsFloat : Bool      -- `isinstance(alpha, float)`
+  modePalette : Bool       -- `img.mode in {"P", "PA"}`
+
+def usesFile (g : FileGate) : Bool :=
+  g.readFromFile && !g.animated && g.readable && g.whole && decide (g.origPixels ≤ g.renderPixels) &&
+    (g.modeNoAlpha || (g.alphaIsFloat && !g.modePalette))
+
+/-- the `size=` prefix of the iterm2 control data and its payload -/
+def itermFrame (size w h : Nat) (konsole : Bool) : String :=
+  s!"size={size};width={w};height={h};preserveAspectRatio=0;inline=1" ++ (if konsole then ";doNotMoveCursor=1" else "")
+
 end TIV.C03
